@@ -238,6 +238,16 @@ class Interp:
             if fn == 'powi':
                 if args[1][0] != 'iconst': raise Unsupported('powi with symbolic exponent')
                 return ('powi', args[0], args[1][1])
+            # compound std float functions, read as the real functions they denote
+            if fn == 'ln_1p': return ('un', 'ln', ('add', ('const', Fraction(1)), args[0]))
+            if fn == 'exp_m1': return ('sub', ('un', 'exp', args[0]), ('const', Fraction(1)))
+            if fn == 'recip': return ('div', ('const', Fraction(1)), args[0])
+            if fn == 'mul_add': return ('add', ('mul', args[0], args[1]), args[2])
+            if fn == 'powf' and args[1][0] == 'const':
+                e = float(args[1][1])
+                if e == int(e) and abs(e) <= 16: return ('powi', args[0], int(e))
+                if e == 0.5: return ('un', 'sqrt', args[0])
+                if e == 1.5: return ('mul', args[0], ('un', 'sqrt', args[0]))
             if fn == 'max': return ('ite', ('ge', args[0], args[1]), args[0], args[1])
             if fn == 'min': return ('ite', ('le', args[0], args[1]), args[0], args[1])
         if self.glue:
